@@ -166,21 +166,26 @@ Print Assumptions C05_genesis_crash_safe.
    switch call, complete or stopped half way - starting from a pool whose executed store agrees with
    the chain's and whose pending list is disjoint from it and has room: every transaction of a block
    of l that no block of l' carries is pending afterwards; every transaction of l' is executed and not
-   pending. *)
-Theorem C05_pending_again : forall lim ws s l l' p,
+   pending. [evf ts] is the header's evicted list of the block with body ts; the theorem is for evicted
+   lists within the body - the regime below the Proposal018 height, where a failed transaction stays in
+   the body and is listed as evicted (and every block without evictions in any regime). From 018 on an
+   evicted transaction is not in the body and is dropped from the pool by design. *)
+Theorem C05_pending_again : forall (evf : list N -> list N),
+  (forall ts h, existsb (N.eqb h) (evf ts) = true -> existsb (N.eqb h) ts = true) ->
+  forall lim ws s l l' p,
   rep s l -> rep (apply ws s) l' -> rel s p -> dis p ->
   N.of_nat (length (V.C17.Model.received p) + length ws) <= lim ->
-  let p' := pool_after lim ws p in
+  let p' := pool_after evf lim ws p in
   (forall t, E l t = true -> E l' t = false -> Pending.R p' t = true) /\
   (forall t, E l' t = true -> Pending.X p' t = true /\ Pending.R p' t = false) /\
   rel (apply ws s) p' /\ dis p'.
 Proof.
-  intros lim ws s l l' p R0 R1 Hrel Hdis Hcap. cbn zeta.
-  destruct (pending_trace lim ws s p Hrel Hdis Hcap) as [T1 [T2 T3]].
+  intros evf Hev lim ws s l l' p R0 R1 Hrel Hdis Hcap. cbn zeta.
+  destruct (pending_trace evf Hev lim ws s p Hrel Hdis Hcap) as [T1 [T2 T3]].
   split; [|split; [|split]]; auto.
   - intros t H0 H1. apply T3. left. now rewrite (r_exec _ _ R0). now rewrite (r_exec _ _ R1).
-  - intros t H1. assert (Hx : Pending.X (pool_after lim ws p) t = true) by (rewrite T1, (r_exec _ _ R1); exact H1).
-    split; auto. destruct (Pending.R (pool_after lim ws p) t) eqn:Er; auto. rewrite (T2 t Er) in Hx. discriminate.
+  - intros t H1. assert (Hx : Pending.X (pool_after evf lim ws p) t = true) by (rewrite T1, (r_exec _ _ R1); exact H1).
+    split; auto. destruct (Pending.R (pool_after evf lim ws p) t) eqn:Er; auto. rewrite (T2 t Er) in Hx. discriminate.
 Qed.
 Print Assumptions C05_pending_again.
 
@@ -286,8 +291,9 @@ Example C05_pending_example :
   let v0 : vol := (fun _ => None, []) in
   let s0 := fst (run 10 v0 (st_of [g0]) [a2; a1]) in
   let ws := fst (fst (fst (add_writes 10 (fun _ => None) [] s0 b1))) in
-  let p0 := pool_after 100 (insert_writes a1 ++ insert_writes a2) V.C17.Model.empty in
-  let p1 := pool_after 100 ws p0 in
+  let evf := fun ts : list N => filter (fun t => t =? 8) ts in   (* 8 failed in its block: evicted and in the body *)
+  let p0 := pool_after evf 100 (insert_writes a1 ++ insert_writes a2) V.C17.Model.empty in
+  let p1 := pool_after evf 100 ws p0 in
   map (Pending.X p0) [7; 8; 9] = [true; true; false] /\
   map (Pending.R p1) [7; 8; 9] = [true; true; false] /\ map (Pending.X p1) [7; 8; 9] = [false; false; true].
 Proof. vm_compute. repeat split; reflexivity. Qed.
